@@ -12,6 +12,15 @@ Persistence steps (`Op`) are atomic except `write`: a crash while the TOML encod
 encoding (`FileState.torn`), classified by what the real decoder (`key.Load`) makes of that prefix.
 The op sequences of the scripted runs follow the call structure of the Go code; the call lists next to them are
 the ones `go2lean` regenerates from the source on every run (`Gen.*Persist`), tied by `tie_*` theorems.
+
+VARIANT SWITCH `WriteMode` (DESIGN §2.5) for the file-write primitive `key.Save`:
+  * `inPlace`      — create/truncate the target, encode into it: a crash leaves the target absent-then-empty, a proper
+                     prefix, or complete;
+  * `atomicRename` — encode into the sibling `<target>.tmp`, Sync, Close, rename over the target: a crash leaves the
+                     target's OLD content intact (plus a stray, possibly torn, temporary file nobody loads) or the
+                     complete NEW content.
+Which of the two the tree under test has is the regenerated fact `Gen.keySaveVariant` (`codeWriteMode`,
+`tie_keySave` in DrandProofs/C13.lean); the extractor refuses any other shape.
 -/
 import Gen.Persist
 
@@ -36,6 +45,18 @@ inductive FileState where
 
 inductive File where
   | group | share
+  | groupTmp | shareTmp   -- `drand_group.toml.tmp`, `dist_key.private.tmp`: written by the atomicRename variant only, never loaded
+  deriving DecidableEq, Repr
+
+/-- `filePath + tmpExtension` -/
+def File.tmp : File → File
+  | .group => .groupTmp
+  | .share => .shareTmp
+  | f => f
+
+/-- the file-write primitive `key.Save` (variant switch) -/
+inductive WriteMode where
+  | inPlace | atomicRename
   deriving DecidableEq, Repr
 
 /-- the staged ("current") DKG record -/
@@ -55,7 +76,12 @@ structure Disk where
   db : DkgDb
   group : FileState
   share : FileState
+  groupTmp : FileState
+  shareTmp : FileState
   deriving DecidableEq, Repr, Inhabited
+
+/-- a disk without temporary files -/
+def Disk.clean (chain : List Nat) (db : DkgDb) (group share : FileState) : Disk := ⟨chain, db, group, share, .absent, .absent⟩
 
 inductive Op where
   | boltPut (r : Nat)                       -- one bbolt transaction on drand.db
@@ -66,12 +92,21 @@ inductive Op where
   | chmod (f : File)
   | write (f : File) (e : Nat)              -- toml Encode + Close
   | remove (f : File)                       -- os.RemoveAll
+  | rename (src dst : File)                 -- os.Rename: `dst` now names what `src` named, `src` is gone (atomic)
   deriving DecidableEq, Repr
 
 def Disk.setFile (d : Disk) (f : File) (s : FileState) : Disk :=
   match f with
   | .group => { d with group := s }
   | .share => { d with share := s }
+  | .groupTmp => { d with groupTmp := s }
+  | .shareTmp => { d with shareTmp := s }
+
+def Disk.getFile (d : Disk) : File → FileState
+  | .group => d.group
+  | .share => d.share
+  | .groupTmp => d.groupTmp
+  | .shareTmp => d.shareTmp
 
 def apply (d : Disk) : Op → Disk
   | .boltPut r => { d with chain := d.chain ++ [r] }
@@ -82,6 +117,7 @@ def apply (d : Disk) : Op → Disk
   | .chmod _ => d
   | .write f e => d.setFile f (.whole e)
   | .remove f => d.setFile f .absent
+  | .rename src dst => (d.setFile dst (d.getFile src)).setFile src .absent
 
 def run (d : Disk) (ops : List Op) : Disk := ops.foldl apply d
 
@@ -91,24 +127,47 @@ def run (d : Disk) (ops : List Op) : Disk := ops.foldl apply d
 def createSecureFileCalls : List String := ["os.Create", "Close", "chmod", "os.OpenFile"]
 def createSecureFileOps (f : File) : List Op := [.create f, .chmod f]
 
-/-- `key.Save(path, v, secure)`: (secure ? fs.CreateSecureFile : os.Create) then Encode; no temporary file, no rename -/
-def keySaveCalls : List String := ["secure:fs.CreateSecureFile", "plain:os.Create", "Encode"]
-def saveOps (f : File) (secure : Bool) (e : Nat) : List Op :=
-  (if secure then createSecureFileOps f else [.create f]) ++ [.write f e]
+/-- `key.Save(path, v, secure)`, the calls as go2lean lists them (`Gen.keySavePersist`), per variant.
+`Sync` and `Close` have no step of their own on the modelled disk (a completed write is durable: trusted file-system
+assumption); that they come before `os.Rename`, and that `os.Rename` is only reached when everything before it
+succeeded, is what the tie checks. -/
+def keySaveCalls : WriteMode → List String
+  | .inPlace => ["secure:fs.CreateSecureFile:filePath", "plain:os.Create:filePath", "defer:Close", "Encode"]
+  | .atomicRename =>
+    ["secure:fs.CreateSecureFile:filePath+tmpExtension", "plain:os.Create:filePath+tmpExtension",
+     "err:os.Remove:filePath+tmpExtension", "Encode", "ok:Sync", "Close",
+     "ok:os.Rename:filePath+tmpExtension:filePath", "err:os.Remove:filePath+tmpExtension"]
+
+def creatorOps (f : File) (secure : Bool) : List Op := if secure then createSecureFileOps f else [.create f]
+
+/-- the disk steps of one `Save`: in place — creator on the target, encode into it;
+atomic — creator on the temporary sibling, encode into it, rename it over the target -/
+def saveOps (m : WriteMode) (f : File) (secure : Bool) (e : Nat) : List Op :=
+  match m with
+  | .inPlace => creatorOps f secure ++ [.write f e]
+  | .atomicRename => creatorOps f.tmp secure ++ [.write f.tmp e, .rename f.tmp f]
+
+/-- the variant the tree under test has (regenerated fact) -/
+def codeWriteMode : WriteMode := if Gen.keySaveVariant = "atomicRename" then .atomicRename else .inPlace
 
 /-- `fileStore.SaveGroup` = Save(groupFile, g, false); `fileStore.SaveShare` = Save(shareFile, share, true) -/
 def saveGroupCalls : List String := ["Save:f.groupFile:false"]
 def saveShareCalls : List String := ["Save:f.shareFile:true"]
-def saveGroupOps (e : Nat) : List Op := saveOps .group false e
-def saveShareOps (e : Nat) : List Op := saveOps .share true e
+def saveGroupOps (m : WriteMode) (e : Nat) : List Op := saveOps m .group false e
+def saveShareOps (m : WriteMode) (e : Nat) : List Op := saveOps m .share true e
 
 /-- `BeaconProcess.storeDKGOutput`: SaveGroup, SaveShare, dkgCallback -/
 def storeDKGOutputCalls : List String := ["store.SaveGroup", "store.SaveShare", "dkgCallback"]
-def storeDKGOutputOps (e : Nat) : List Op := saveGroupOps e ++ saveShareOps e
+def storeDKGOutputOps (m : WriteMode) (e : Nat) : List Op := saveGroupOps m e ++ saveShareOps m e
 
-/-- `fileStore.Reset`: Delete(shareFile), Delete(groupFile); `key.Delete` = os.RemoveAll -/
-def resetCalls : List String := ["Delete:f.shareFile", "Delete:f.groupFile"]
-def resetOps : List Op := [.remove .share, .remove .group]
+/-- `fileStore.Reset`: Delete(shareFile), Delete(groupFile) — and, in the atomicRename variant, the temporary files an
+interrupted Save may have left; `key.Delete` = os.RemoveAll -/
+def resetCalls : WriteMode → List String
+  | .inPlace => ["Delete:f.shareFile", "Delete:f.groupFile"]
+  | .atomicRename => ["Delete:f.shareFile", "Delete:f.groupFile", "Delete:f.shareFile+tmpExtension", "Delete:f.groupFile+tmpExtension"]
+def resetOps : WriteMode → List Op
+  | .inPlace => [.remove .share, .remove .group]
+  | .atomicRename => [.remove .share, .remove .group, .remove .shareTmp, .remove .groupTmp]
 
 /-- `BeaconProcess.leaveNetwork`: beacon.StopAt, store.Reset -/
 def leaveNetworkCalls : List String := ["beacon.StopAt", "store.Reset"]
@@ -131,12 +190,12 @@ def stageOps (consumer : List Op) (e : Nat) : Stage → List Op
   | .send => consumer
 
 /-- completion of epoch `e` on a node that is in the new group (first DKG, joining, staying) -/
-def completionOpsIn (order : List Stage) (e : Nat) : List Op := order.flatMap (stageOps (storeDKGOutputOps e) e)
-def completionOps (e : Nat) : List Op := completionOpsIn codeOrder e
+def completionOpsIn (m : WriteMode) (order : List Stage) (e : Nat) : List Op := order.flatMap (stageOps (storeDKGOutputOps m e) e)
+def completionOps (m : WriteMode) (e : Nat) : List Op := completionOpsIn m codeOrder e
 
 /-- completion of epoch `e` on a node that ran the protocol but is not in the new group -/
-def evictionOpsIn (order : List Stage) (e : Nat) : List Op := order.flatMap (stageOps resetOps e)
-def evictionOps (e : Nat) : List Op := evictionOpsIn codeOrder e
+def evictionOpsIn (m : WriteMode) (order : List Stage) (e : Nat) : List Op := order.flatMap (stageOps (resetOps m) e)
+def evictionOps (m : WriteMode) (e : Nat) : List Op := evictionOpsIn m codeOrder e
 
 /-- a DKG step that only touches the staged bucket (proposal, acceptance, execution start, failure, leaving) -/
 def stagedOps (e : Nat) (status : String) : List Op := [.saveCurrent e status]
@@ -274,6 +333,18 @@ def reconcileFiles (member : Nat → Bool) (d : Disk) : Disk :=
   | none => d
   | some e => if member e then { d with group := .whole e, share := .whole e }
               else { d with group := .absent, share := .absent }
+
+/-- a key file that is not the leftover of an interrupted in-place write: absent, or one complete encoding -/
+def FileState.intact : FileState → Bool
+  | .absent => true
+  | .whole _ => true
+  | _ => false
+
+/-- what `key.Load` answers is neither a panic nor a silently truncated value -/
+def Loaded.sound : Loaded → Bool
+  | .panics => false
+  | .truncated _ => false
+  | _ => true
 
 /-- what a restart finds in a crash image -/
 def recover (cfg : Cfg) (member : Nat → Bool) (d : Disk) : Recovered :=
